@@ -232,7 +232,12 @@ macro_rules! jcheck {
     let immpos: [(usize, u8); 4] = $immpos;
     let (i1, i2) = match fixed { Some((x, y)) => (x, y), None => (b1, b2) };
     let code = match cbv { Some(second) => [$op, second, i2], None => [$op, i1, i2] };
+    // the SM83 reference is only needed to rebuild the counterexample natively (which addresses to poke); the
+    // obligation itself is JIT == interpreter, so the solver run skips it unless a realizable counterexample is asked for
+    #[cfg(any(verif_playback, verif_realizable))]
     let o = sm83ref::step(code, r0, rd);
+    #[cfg(not(any(verif_playback, verif_realizable)))]
+    let o = sm83ref::no_events(r0);
     #[cfg(verif_realizable)]
     kani::assume(cpuh::realizable(&o, r0.pc));
     // interpreter first (records the bus log), then the translated code against that log
